@@ -226,24 +226,28 @@ theorem C06_multitrack_unfold (s : MmlState) (col i id : Nat) (rest : List Nat) 
   ⟨rfl, rfl, parseMmlLoop_cons col i id rest s⟩
 
 
-/-- a second pair with event commands of the widened subset: `AB t120 @3 v12 [c(d)2]4 L p-1` and
-`B t120|@3<tab>v12 [ c ( d )2 ]4`, ` L p-1 ;end` -/
+/-- a second pair with event commands of the widened subset: `AB t120 @3 v12 [c(d)2]4 L p-1 _2 __-1 k3 %5` and
+`B t120|@3<tab>v12 [ c ( d )2 ]4`, ` L p-1 _2|__-1 k3<tab>%5 ;end` -/
 def exEvMulti : List LLine :=
   [.hdr [.letter 0, .letter 1] 32
     [.cmd (.simple .tempoBpm (some { v := 120 })), .blank 32, .cmd (.simple .ins (some { v := 3 })), .blank 32, .cmd (.simple .vol (some { v := 12 })), .blank 32,
      .cmd (.simple .loopStart none), .cmd (.note 2 .none (.dflt 0)), .cmd (.simple .volDown none), .cmd (.note 3 .none (.dflt 0)),
      .cmd (.simple .volUp (some { v := 2 })), .cmd (.simple .loopEnd (some { v := 4 })), .blank 32, .cmd (.simple .segno none), .blank 32,
-     .cmd (.simple .pan (some { v := -1 }))] []]
+     .cmd (.simple .pan (some { v := -1 })), .blank 32, .cmd (.simple .transpose (some { v := 2 })), .blank 32,
+     .cmd (.simple .transposeRel (some { v := -1 })), .blank 32, .cmd (.simple .kTranspose (some { v := 3 })), .blank 32,
+     .cmd (.simple .platform (some { v := 5 }))] []]
 
 def exEvSingle : List LLine :=
   [.hdr [.letter 1] 32
     [.cmd (.simple .tempoBpm (some { v := 120 })), .bar, .cmd (.simple .ins (some { v := 3 })), .blank 9, .cmd (.simple .vol (some { v := 12 })), .blank 32,
      .cmd (.simple .loopStart none), .blank 32, .cmd (.note 2 .none (.dflt 0)), .blank 32, .cmd (.simple .volDown none), .blank 32,
      .cmd (.note 3 .none (.dflt 0)), .blank 32, .cmd (.simple .volUp (some { v := 2 })), .blank 32, .cmd (.simple .loopEnd (some { v := 4 }))] [],
-   .cont 32 [.cmd (.simple .segno none), .blank 32, .cmd (.simple .pan (some { v := -1 })), .blank 32] (tx ";end")]
+   .cont 32 [.cmd (.simple .segno none), .blank 32, .cmd (.simple .pan (some { v := -1 })), .blank 32,
+     .cmd (.simple .transpose (some { v := 2 })), .bar, .cmd (.simple .transposeRel (some { v := -1 })), .blank 32,
+     .cmd (.simple .kTranspose (some { v := 3 })), .blank 9, .cmd (.simple .platform (some { v := 5 })), .blank 32] (tx ";end")]
 
-example : exEvMulti.map LLine.text = [tx "AB t120 @3 v12 [c(d)2]4 L p-1"] ∧
-    exEvSingle.map LLine.text = [tx "B t120|@3\tv12 [ c ( d )2 ]4", tx " L p-1 ;end"] ∧ layoutCmds exEvMulti = layoutCmds exEvSingle := by
+example : exEvMulti.map LLine.text = [tx "AB t120 @3 v12 [c(d)2]4 L p-1 _2 __-1 k3 %5"] ∧
+    exEvSingle.map LLine.text = [tx "B t120|@3\tv12 [ c ( d )2 ]4", tx " L p-1 _2|__-1 k3\t%5 ;end"] ∧ layoutCmds exEvMulti = layoutCmds exEvSingle := by
   refine ⟨by decide, by decide, rfl⟩
 
 example : LinesOk [0, 1] false exEvMulti ∧ LinesOk [1] false exEvSingle ∧
@@ -251,8 +255,8 @@ example : LinesOk [0, 1] false exEvMulti ∧ LinesOk [1] false exEvSingle ∧
   decide +kernel
 
 example :
-    ((outcome ["AB t120 @3 v12 [c(d)2]4 L p-1"]).2.lookup 1) = ((outcome ["B t120|@3\tv12 [ c ( d )2 ]4", " L p-1 ;end"]).2.lookup 1) ∧
-    (outcome ["AB t120 @3 v12 [c(d)2]4 L p-1"]).1 = none := by
+    ((outcome ["AB t120 @3 v12 [c(d)2]4 L p-1 _2 __-1 k3 %5"]).2.lookup 1) = ((outcome ["B t120|@3\tv12 [ c ( d )2 ]4", " L p-1 _2|__-1 k3\t%5 ;end"]).2.lookup 1) ∧
+    (outcome ["AB t120 @3 v12 [c(d)2]4 L p-1 _2 __-1 k3 %5"]).1 = none := by
   decide +kernel
 
 /-! ## conditional blocks -/
@@ -356,7 +360,7 @@ theorem C06_separator_suffices (t : Track) (cmd : Cmd) (hn : LCmdNums t cmd) (ts
 /-- A LAYOUT RUNS AS ITS COMMAND LIST (PARTIAL: `CmdsOk` — every command is in the covered subset
 `LCovered` (Proofs/LayoutCmd: the subset C05 covers — notes `a`..`h` with accidental and every
 duration form, `r ^ l o < > Q q C s &` — widened by `D n` and the event commands `[ L`, `] ( )`
-with or without their number, `* @ v p K E M P G t T` with their number), its numbers are `int`s
+with or without their number, `* @ v p K E M P G t T _ __ k %` with their number), its numbers are `int`s
 accepted by the command, `&` finds its note; this is the only hypothesis beyond "the lines are a
 layout").  From any state, the lines of any layout for the
 distinct tracks `ids` are accepted, every listed track ends — up to source references — as after
